@@ -92,7 +92,7 @@ func (a *Analysis) entryContexts(fn *ssa.Function) []*Ctx {
 				s := s
 				out = append(out, a.sizeCtx(kind, &s, g, lc))
 			}
-			out = append(out, a.sizeCtx(kind, nil, g, lc))
+			out = append(out, a.rejectCtxs(kind, g, lc)...)
 		}
 	}
 	switch fn {
@@ -211,6 +211,9 @@ func (a *Analysis) ruleP() {
 	// F4 / E1 findings the evaluator met on the way
 	for _, e := range a.evals {
 		for _, ev := range e.Events {
+			if ev.Instr != nil && a.SwapStores[ev.Instr] {
+				continue // an explicit swap of the randomness source, classified by F3b
+			}
 			if (ev.Rule == "F4" || ev.Rule == "E1" || ev.Rule == "E2") && ev.Status != Discharged && ev.Instr != nil {
 				r.Add(ev.Rule, "eval/"+instrKey(ev.Instr), a.P.InstrPos(ev.Instr), e.Ctx.Name, ev.Status, "%s", ev.Msg)
 			}
